@@ -157,6 +157,41 @@ def h_mappings(vlq, W, shape, bits, wide):
     return harness
 
 
+def fallback_probe(run):
+    """Only used when SX left the modelled fragment (inconclusive): concrete probing at the points the
+    symbolic bands are split at, through the replay function.  It can turn an inconclusive run into a
+    *confirmed* violation, never into a pass."""
+    from .. import replay as rp
+    pts = set(range(-70, 71))
+    for k in range(1, 62):
+        for d in range(-3, 4):
+            pts.add((1 << k) + d)
+            pts.add(-((1 << k) + d))
+            pts.add((32 ** k + d) >> 1)
+            pts.add(-((32 ** k + d) >> 1))
+    small = sorted(set(range(-1100, 1101)) | {v for v in pts if abs(v) < 2 ** 40})
+    items = [{'i': i} for i in sorted(pts)]
+    items += [{'ints': [a, b]} for a in (0, 1, -1, 15, 16, -16, 31, -31, 47, 495, 1008, -511) for b in (0, 16, -1, 31)]
+    items += [{'ints': [v]} for v in range(-40, 41)]
+    items += [{'mappings': [[[v]]]} for v in small[::1] if abs(v) <= 1100]
+    items += [{'mappings': [[[a, 0, b, 1], [c]], [], [[b, 1, a, 0, c]]]} for a in (0, 16, 31, -31, 495) for b in (1, -16, 47, 1008) for c in (0, 15, -511, 33)]
+    code = ("import sys, json\nsys.path.insert(0, %r)\nfrom vplib import boot\nboot.load_plain()\n"
+            "from vplib.checks import c10\nout=[]\nseen=set()\n"
+            "for it in json.loads(sys.stdin.read()):\n"
+            "    try:\n        b, d = c10.replay({'input': it})\n    except Exception as e:\n        b, d = True, 'exception %%r' %% (e,)\n"
+            "    k = sorted(it)[0]\n"
+            "    if b and k not in seen:\n        seen.add(k); out.append([it, d])\nprint(json.dumps(out[:5]))\n") % common.VERIF
+    import subprocess, json as _j
+    env = dict(os.environ, CALMJS_VERIF_SCRATCH=boot.scratch_dir())
+    r = subprocess.run([sys.executable, '-c', code], input=_j.dumps(items), capture_output=True, text=True, env=env, cwd=common.VERIF)
+    if r.returncode != 0:
+        return 0
+    for it, d in _j.loads(r.stdout.strip().splitlines()[-1]):
+        kind = sorted(it)[0]
+        run.violation({'i': 'single', 'ints': 'list', 'mappings': 'mappings'}[kind] + ': concrete probe', 'codec law fails at %r: %s' % (it, d[:300]), {'property': 'C10', 'input': it, 'law': 'concrete probe'})
+    return len(items)
+
+
 # ---------------------------------------------------------------- driver
 def _run_task(task):
     kind, args = task
@@ -203,34 +238,6 @@ def replay(d):
         norm = [[list(seg) for seg in line] for line in back]
         return (norm != m or t != exp), 'mappings=%r text=%r back=%r' % (m, t, back)
     raise common.HarnessError('unknown replay input %r' % (w,))
-
-
-def fallback_probe(run):
-    """Only used when SX left the modelled fragment (inconclusive): concrete probing at the points the
-    symbolic bands are split at, through the replay function.  It can turn an inconclusive run into a
-    *confirmed* violation, never into a pass."""
-    from .. import replay as rp
-    pts = set(range(-70, 71))
-    for k in range(1, 62):
-        for d in range(-3, 4):
-            pts.add((1 << k) + d)
-            pts.add(-((1 << k) + d))
-            pts.add((32 ** k + d) >> 1)
-            pts.add(-((32 ** k + d) >> 1))
-    bad = []
-    code = ("import sys, json\nsys.path.insert(0, %r)\nfrom vplib import boot\nboot.load_plain()\n"
-            "from vplib.checks import c10\nout=[]\n"
-            "for i in json.loads(sys.argv[1]):\n"
-            "    try:\n        b, d = c10.replay({'input': {'i': i}})\n    except Exception as e:\n        b, d = True, 'exception %%r' %% (e,)\n"
-            "    if b: out.append([i, d])\nprint(json.dumps(out[:5]))\n") % common.VERIF
-    import subprocess, json as _j
-    env = dict(os.environ, CALMJS_VERIF_SCRATCH=boot.scratch_dir())
-    r = subprocess.run([sys.executable, '-c', code, _j.dumps(sorted(pts))], capture_output=True, text=True, env=env, cwd=common.VERIF)
-    if r.returncode != 0:
-        return 0
-    for i, d in _j.loads(r.stdout.strip().splitlines()[-1]):
-        run.violation('single: concrete probe', 'codec law fails at i=%d: %s' % (i, d[:300]), {'property': 'C10', 'input': {'i': i}, 'law': 'concrete probe'})
-    return len(pts)
 
 
 def main():
